@@ -379,7 +379,39 @@ class C17(Proto):
                "the property's real-scheduler violation (DESIGN D17) is not observable under virtual time")
 
 
-ALL = {c.id: c for c in [C01, C02, C03, C04, C06, C07, C08, C09, C10, C11, C15, C17, C18, C19]}
+class C13(Proto):
+    id = "C13"
+    lean_module = "Props.C13"
+    rule = ("scripts for the real Router on an in-memory socket under virtual time, uncontended (a lock-needing event only "
+            "when the send lock is free - a goroutine waiting for sync.Mutex cannot be driven under virtual time): Sends, "
+            "failing Sends, routing indications, reads, lost indications (counts 0,1,2,3,31,32,33,64,65535), busy indications "
+            "(wait 0..500 ms, control != 0, and control 0 where the 50 ms cap makes the random part irrelevant), Close; post-"
+            "send pause 0 / 5 s / 20 s, retain 0(=32),1,2,5,31,32,33,64. Trace compared exactly; monitors: gap between "
+            "transmissions >= pause, silence after busy, exact resend, deliveries, every Send returns.")
+    technique = "Lean 4 proof (lock-held-until invariant of the router transition system: no transmission before the scheduled release, over all labels) + exact trace correspondence under testing/synctest"
+    level_text = ("Theorems over the router transition system, every label: every transmission happens under the lock; a successful "
+                  "one keeps it for the whole post-send pause, a busy indication for min(announced+random, 50 ms); while it is "
+                  "held no label before the release time - any number of pending Sends - makes a routing indication leave the "
+                  "client, and the release stays scheduled (pacing and back-off); at the release the first waiter proceeds, a waiting "
+                  "Send transmits and returns; the lock is never held without a scheduled release (no deadlock).")
+    partial = ("'at most one further transmission per goroutine already inside Send' is FIFO hand-off of sync.Mutex (the model's "
+               "waiter queue embodies it); liveness under the real scheduler and contended behaviour are exercised in real time only")
+
+
+class C14(Proto):
+    id = "C14"
+    lean_module = "Props.C14"
+    rule = ("router scripts as for C13 with lost indications in half of the steps, one script of 300 steps; retained list and "
+            "retransmissions compared exactly with the model and recomputed by the monitor from the transmissions observed.")
+    technique = "Lean 4 proof (list laws of the retainer, induction over the grant chain and over label sequences) + exact trace correspondence under testing/synctest"
+    level_text = ("Theorems: the retained list never exceeds the configured count (32 when 0) in any reachable state (induction over "
+                  "label sequences and over the lock hand-off chain); failed transmissions are not retained; an idle client told "
+                  "that k messages were lost retransmits exactly the last min(k, retained) in original order and nothing else "
+                  "(pause 0: whole chain; with a pause: one message per pause, step law); every routing indication is parked once "
+                  "and read in order; after Close Inbound is closed.")
+
+
+ALL = {c.id: c for c in [C01, C02, C03, C04, C06, C07, C08, C09, C10, C11, C13, C14, C15, C17, C18, C19]}
 NOT_CLAIMED = {}
 
 
